@@ -483,6 +483,45 @@ fn json_mutate(json: &[u8], m: &Value) -> Vec<u8> {
             }
             splice(t.1, t.1, &ins)
         }
+        "array-del" => {
+            // remove the first n elements of the k-th array (a shorter sequence than the type holds)
+            let arrs: Vec<&(usize, usize, u8)> = toks.iter().filter(|t| t.2 == b'[').collect();
+            if arrs.is_empty() {
+                return json.to_vec();
+            }
+            let t = arrs[k % arrs.len()];
+            let n = m["n"].as_u64().unwrap_or(1) as usize;
+            // find the end of the n-th top-level element after the bracket
+            let mut depth = 0i32;
+            let mut i = t.1;
+            let mut removed = 0;
+            let mut in_str = false;
+            while i < json.len() && removed < n {
+                let c = json[i];
+                if in_str {
+                    if c == b'\\' {
+                        i += 1;
+                    } else if c == b'"' {
+                        in_str = false;
+                    }
+                } else {
+                    match c {
+                        b'"' => in_str = true,
+                        b'[' | b'{' => depth += 1,
+                        b']' | b'}' => {
+                            if depth == 0 {
+                                break;
+                            }
+                            depth -= 1;
+                        }
+                        b',' if depth == 0 => removed += 1,
+                        _ => {}
+                    }
+                }
+                i += 1;
+            }
+            splice(t.1, i.min(json.len()), b"")
+        }
         "trunc" => json[..(m["at"].as_u64().unwrap_or(0) as usize).min(json.len())].to_vec(),
         "nest" => {
             let n = m["n"].as_u64().unwrap_or(1000) as usize;
@@ -522,6 +561,9 @@ fn json_cases(sch: &mut Sched, base: &Value, big: bool, quick: bool) -> Vec<Valu
         }
         for n in [1u64, 2, 100_000] {
             v.push(mk(json!({"k": "array", "tok": tok, "n": n})));
+        }
+        for n in [1u64, 3, 64, 100_000] {
+            v.push(mk(json!({"k": "array-del", "tok": tok, "n": n})));
         }
     }
     for _ in 0..4 {
